@@ -581,6 +581,36 @@ func (e *Engine) scenario(s *State, cm *CachedModel, ob string) *Scenario {
 			fmt.Fprintf(os.Stderr, "SC %s kind=%s term=%s val=%v\n", en.Tag, en.Kind, en.T.String(), toGo(v))
 		}
 	}
+	// strings.ToLower is an uninterpreted function with necessary conditions only: where the model's value of
+	// lower(x) is not the real lower-casing of its value of x, x is re-spelled as the upper-cased image, whose
+	// real lower-casing is the model's lower(x) (same length; the replay decides whether the scenario stands)
+	for _, app := range ufApps(s.pcTerms(), "lower") {
+		x := app.Args[0]
+		if x.Op != "var" {
+			continue
+		}
+		lv, ok1 := cm.Eval(app)
+		xv, ok2 := cm.Eval(x)
+		if !ok1 || !ok2 || lv.S == nil || xv.S == nil || strings.ToLower(*xv.S) == *lv.S {
+			continue
+		}
+		// make the image really lower-case wherever the scenario spells it, and x its upper-cased form
+		low := strings.ToLower(*lv.S)
+		cand := strings.ToUpper(low)
+		if cand == low {
+			continue
+		}
+		for _, en := range s.W.Nondet {
+			if en.T.Op != "var" || en.T.Sort != SStr {
+				continue
+			}
+			if en.T == x {
+				sc.Nondet[en.Tag] = map[string]interface{}{"hex": fmt.Sprintf("%x", cand)}
+			} else if ev, ok := cm.Eval(en.T); ok && ev.S != nil && *ev.S == *lv.S {
+				sc.Nondet[en.Tag] = map[string]interface{}{"hex": fmt.Sprintf("%x", low)}
+			}
+		}
+	}
 	evalStr := func(i int) (string, bool) {
 		v, ok := cm.Eval(s.W.Evals[i].T)
 		if !ok || v.S == nil {
